@@ -6,6 +6,7 @@ CONSTANTS
   MaxCalls = 1000000
   MaxRoutes = 1
   MaxHosts = 1
+  MaxCorsCalls = 1000000
   FullApi = TRUE
   ReqMethods = {"GET", "OPTIONS"}
   ReqHosts = {"", "one.test"}
